@@ -25,7 +25,26 @@ CHECKS = {
             "TLA+ codec spec (CRC-16 in TLA+); TLC grid model checking + vector replay; TLC trace validation",
             "As C02 for telemetry with the timestamp length as configuration axis (0..40), the service-17 wrapper and the "
             "generic space-packet view.", "DESIGN.md 5/C03", ""),
+    "C13": (True, "model_checking",
+            "TLA+ state machine of the stream parser; TLC exhaustive over all fragmentations/interleavings; every transition "
+            "replayed on the real function; TLC trace validation of recorded random histories",
+            "SpParser.tla is model-checked over every append/parse interleaving and every cut position of bounded streams "
+            "(Inv_Prefix, Inv_Tail, Inv_Done, Inv_Prompt, Act_ExactlyOnce); each explored transition is executed on the real "
+            "parse_space_packets both from the materialised pre-state and along real paths; random long histories of real PUS "
+            "packets are validated by the Trace_SpParser trace specification.", "DESIGN.md 5/C13", ""),
+    "C16": (True, "model_checking",
+            "TLA+ state machine of the verification tracker; TLC exhaustive over all report histories of 2 TCs; every "
+            "transition replayed on real PusVerificator objects; TLC trace validation of random histories",
+            "Verificator.tla (one action per public call) is model-checked against 12 invariants / action properties; every "
+            "transition of the emission configuration is executed on the real class with the whole verif_dict and the returned "
+            "value compared; random histories over up to 6 telecommands are validated by Trace_Verificator.", "DESIGN.md 5/C16", ""),
+    "C19": (True, "model_checking",
+            "TLA+ state machine of the counters incl. character-level file model; TLC exhaustive for widths 1..4 with restarts "
+            "and file faults; every transition replayed on real providers/files; TLC trace validation of histories > 2^W",
+            "SeqCount.tla is model-checked with a restart (new instance on the same file) enabled between any two calls, with and "
+            "without injected file faults; every transition is executed on real provider objects and a real file; histories longer "
+            "than 2^W calls (W = 14, 8, 16 ...) with random restart points are validated by Trace_SeqCount.", "DESIGN.md 5/C19", ""),
 }
 NOT_YET = {}
-for _i in range(4, 21):
+for _i in [4, 5, 6, 7, 8, 9, 10, 11, 12, 14, 15, 17, 18, 20]:
     NOT_YET[f"C{_i:02d}"] = "check not built yet in this revision of /verif (construction in progress, see DESIGN.md 11)"
